@@ -719,7 +719,8 @@ func (conf *Config) get(key Setting) interface{} {
 }
 
 func (conf *Config) update(changes config.StringMap) error {
-	for key, value := range changes.Fields {
+	for _, key := range config.SortedKeys(changes.Fields) {
+		value := changes.Fields[key]
 		trimmedKey := strings.TrimSpace(key)
 		trimmedValue := strings.TrimSpace(value)
 		if err := conf.set(trimmedKey, trimmedValue); err != nil {
